@@ -406,12 +406,23 @@ def alias_cases(seed, n):
         hv = r.choice(['(L 1 (L 2 I:1 I:2) (R 2) D:0:3:0:c)', '(M 1 (S:6b (L 2 I:1)) (S:6a (R 2)))', '(L 1 I:1 I:2 I:3)',
                        '(L 1 (M 2 (S:6b (L 3))) (L 4 I:1))', he.lnum(), he.dict_()])
         ent = f'(S:{hx("h")} {hv})'
-        form = r.randrange(30)
+        import re as _re0
+        top = _re0.match(r'\((?:L|M) (\d+)', hv)
+        shared = bool(top) and r.random() < 0.5
+        if shared:
+            # the host binds the very same object under a second name (and an inner object under a third)
+            ent += f' (S:{hx("g")} (R {top.group(1)}))'
+            inner = _re0.search(r'\((?:L|M) (\d+)', hv[2:])
+            if inner and r.random() < 0.6:
+                ent += f' (S:{hx("q")} (R {inner.group(1)}))'
+        form = r.randrange(37) if shared else r.randrange(30)
         src0 = {10: 'x = h or []', 11: 'x = [] or h', 12: 'x = h and h', 13: 'x = (h if True else 0)', 14: 'x = h + [[0]]',
                 15: 'x = [h, 1][0]', 16: 'x = {"k": h}["k"]', 17: 'x = apply(v => v, h)', 18: 'x = get({"k": h}, "k")', 19: 'x = h[0:2]',
                 20: 'x = reversed(h)', 21: 'x = sorted(h, v => 0)', 22: 'x = 0; x = x or h', 23: 'c = {}; c["k"] = h or []; x = c["k"]',
                 24: 'c = [0]; c[0] = h + []; x = c[0]', 25: 'x = [0]; x[0] = h and h; x = x[0]',
                 26: 'h = h; x = h', 27: 'x = h; x = x', 28: 'y = h; x = y; y = y', 29: 't = [0]; t[0] = h; t[0] = t[0]; x = t[0]',
+                30: 'g = h; x = g', 31: 'h = g; x = h', 32: 'g = g; x = g', 33: 't = []; t.push(h); t[0] = h; x = t[0]',
+                34: 'h[0] = q; x = h[0]', 35: 'x = g; g = h', 36: 'h["k"] = q; x = h["k"]',
                 0: 'x = h', 1: 'c = [0, 0]; c[0] = h; x = c[0]', 2: 'x = [h, h]', 3: 'd = {}; d["k"] = h; x = d["k"]',
                 4: 'x = [1]; x += h', 5: 'c = [[1]]; c[0] += h; x = c[0]',
                 6: 'x = h; y = h; try_apply(w => y.push(5), 0); try_apply(w => y[0].push(6), 0)',
@@ -419,10 +430,10 @@ def alias_cases(seed, n):
                 9: 'x = h; h.push(1); y = h; try_apply(w => y.push(2), 0)'}[form]
         stmts = [src0]
         for _ in range(r.randint(1, 4)):
-            stmts.append(r.choice(muts).format(t=r.choice(['x', 'h', 'x', 'h', 'x[0]', 'h[0]'])))
+            stmts.append(r.choice(muts).format(t=r.choice(['x', 'h', 'x', 'h', 'x[0]', 'h[0]'] + (['g', 'g', 'q'] if shared else []))))
         import re as _re
         stmts = [s if _re.search(r'(^|[^=!<>])=($|[^=>])', s) or s.startswith('del ') else f'try_apply(w => {s}, 0)' for s in stmts]
-        stmts.append('[x, h, try_apply(w => y, 0), try_apply(w => acc, 0)]')
+        stmts.append('[x, h, try_apply(w => y, 0), try_apply(w => acc, 0), try_apply(w => g, 0), try_apply(w => q, 0)]')
         src = '\n'.join(stmts)
         cases.append((eval_line(src, ent), src))
     return cases
